@@ -22,7 +22,7 @@ def sh(cmd, cwd=None, timeout=1800):
 
 def collect(pid, name=None):
     name = name or pid
-    wt = f"/tmp/wt-{pid}"
+    wt = f"/tmp/wt-{name}" if os.path.isdir(f"/tmp/wt-{name}") else f"/tmp/wt-{pid}"
     out = os.path.join(VERIF, "seeded", name)
     os.makedirs(out, exist_ok=True)
     # the source change (everything tracked that changed, except contract files)
